@@ -12,6 +12,9 @@ from core import hx, unhx, err_class
 
 ENCODINGS = ["macroman", "maccyrillic", "utf_8", "shift_jis", "ascii"]
 LEAN_CODEC = {"macroman": "mac-roman", "maccyrillic": "mac-cyrillic", "utf_8": "utf-8", "ascii": "ascii"}
+# the sweeps that do not depend on the seed (codec repertoires, the name matrix) run over a wider set of the
+# codecs `save(..., encoding=...)` / `open(..., encoding=...)` accept
+WIDE_ENCODINGS = ENCODINGS + ["cp932", "latin_1", "gbk", "euc_kr", "cp1252", "big5"]
 PADS = [1, 2, 4]
 SIG_OVERFLOW = "C19/write_unicode_string/OverflowError/code-point-above-U+FFFF"
 SIG_PAIR = "C19/read_unicode_string/surrogate-pair-read-as-two-characters"
@@ -31,6 +34,34 @@ CLASSES = {
     "astral": "\U0001F47D\U00010000\U0010FFFF\U0001F600\U000E0100",
 }
 LOSSY_SJIS = "\u00a5\u203e"
+
+# Characters a "helpful" normaliser, sanitiser or terminator-stripper would touch; each is placed at the START, in the
+# MIDDLE and at the END of a string (and alone, and doubled) for every storage class.
+SPECIAL_CHARS = {
+    "U+FEFF": "\ufeff", "U+FFFE": "\ufffe", "U+FFFF": "\uffff", "NUL": "\x00",
+    "ZWSP": "\u200b", "ZWNJ": "\u200c", "ZWJ": "\u200d", "LRM": "\u200e", "RLM": "\u200f", "LS": "\u2028", "PS": "\u2029",
+    "WJ": "\u2060", "VS16": "\ufe0f", "astral": "\U0001F47D", "U+10000": "\U00010000", "U+10FFFF": "\U0010ffff",
+    "combining-acute": "\u0301", "space": " ", "tab": "\t", "CR": "\r", "LF": "\n", "CRLF": "\r\n", "NBSP": "\u00a0", "SHY": "\u00ad",
+    "NEL": "\u0085", "DEL": "\x7f", "SUB": "\x1a", "U+FFFD": "\ufffd", "ideographic-space": "\u3000",
+    "e-acute-precomposed": "\u00e9", "e-acute-decomposed": "e\u0301", "angstrom-sign": "\u212b", "A-ring": "\u00c5",
+    "ohm-sign": "\u2126", "omega": "\u03a9", "fi-ligature": "\ufb01", "fullwidth-A": "\uff21", "dotted-I": "\u0130", "sharp-s": "\u00df",
+    "quote": "\"", "backslash": "\\", "parens": "()", "percent": "%", "slash": "/", "question": "?", "yen": "\u00a5",
+    "wave-dash": "\u301c", "fullwidth-tilde": "\uff5e", "minus": "\u2212", "fullwidth-hyphen": "\uff0d", "cent": "\u00a2", "not": "\u00ac",
+    "double-bar": "\u2016", "parallel": "\u2225", "pound": "\u00a3",
+}
+
+
+def special_strings(positions=("alone", "start", "middle", "end", "start2", "end2")):
+    out = []
+    for c in SPECIAL_CHARS.values():
+        forms = {"alone": c, "start": c + "ab", "middle": "a" + c + "b", "end": "ab" + c, "start2": c + c + "a", "end2": "a" + c + c}
+        for pos in positions:
+            if forms[pos] not in out:
+                out.append(forms[pos])
+    if len(positions) > 3:
+        out += ["\u00e9e\u0301", "e\u0301\u00e9", "ab\x00\x00", "  ab  ", "\x00\x00ab", "\ufeff\ufeff", "\ufeff\x00", "a\r\n\r\nb",
+                "\u212b\u00c5A\u030a", "\U0001F47D\ufeff\U0001F47D"]
+    return out
 
 
 # ---- helpers --------------------------------------------------------------------------
@@ -223,8 +254,14 @@ def storage_places():
         pat = PT.Pattern.frombytes((T / "tagged_blocks" / "Patt_1.dat").read_bytes())
     add("Pattern.name", "unicode", lambda s: attr.evolve(pat, name=s), lambda o: o.name)
 
+    try:
+        from psd_tools.psd import engine_data as ED
+        add("engine_data.String (text layers: BOM + UTF-16BE, escaped)", "unicode", lambda s: ED.String(s), lambda o: o.value)
+    except Exception:  # noqa
+        pass
+
     # pascal places
-    for enc in ENCODINGS:
+    for enc in WIDE_ENCODINGS:
         add(f"LayerRecord.name legacy field, no unicode block ({enc})", ("pascal", enc),
             lambda s: LM.LayerRecord(name=s), lambda o: o.name, {"encoding": enc}, {"encoding": enc})
         add(f"ImageResource.name ({enc})", ("pascal", enc),
@@ -280,12 +317,14 @@ def run(ctx: core.Run):
         "harness/extract_c19.py: call-site table (encoding/padding literals), name-setter constants, codec tables regenerated on every run",
         "UTF-16 of the Unicode Standard (ch. 3.9, table 3-5) as transcribed in Spec.utf16Enc/Dec; compared on every run with "
         "Python's strict utf-16-be codec and with a second transcription in the harness",
-        "Python's codecs (mac_roman, mac_cyrillic, utf_8, shift_jis, ascii, utf-16-be/surrogatepass)",
+        "Python's codecs (mac_roman, mac_cyrillic, utf_8, shift_jis, ascii, cp932, latin_1, gbk, euc_kr, cp1252, big5, utf-16-be/surrogatepass)",
     ]
     ctx.assumptions += [
         "Python codecs: decode(encode(s)) == s whenever encode succeeds - proved for the Lean ascii/mac_roman/mac_cyrillic/utf_8 "
-        "codecs (compared with Python's on every run), checked per code point for all five Python codecs on every run; it FAILS for "
-        "shift_jis on U+00A5 and U+203E (known finding), so pascal_roundtrip takes the law as a hypothesis on the string at hand",
+        "codecs (compared with Python's on every run), checked per code point over the whole repertoire of all eleven Python codecs on "
+        "every run; it FAILS for shift_jis on U+00A5 / U+203E, for cp932 on U+00A2 U+00A3 U+00AC U+2016 U+2212 U+301C and for euc_kr on "
+        "U+3164 (known findings, one signature per codec naming exactly these characters), so pascal_roundtrip takes the law as a "
+        "hypothesis on the string at hand",
         "strings shorter than 2^31 characters (32-bit unit count); padding divisor != 0 (every call site passes 1, 2 or 4: theorem call_sites_tied)",
         "a Python str whose surrogates form a (high, low) pair is not a well-formed Unicode string: it is written as the pair and read as the astral character",
     ]
@@ -297,12 +336,14 @@ def run(ctx: core.Run):
 
     corpus = json.loads((core.VERIF / "harness" / "corpus" / "C19.json").read_text())
     corp_strings = [from_cps(c["cps"]) for c in corpus if c["kind"] == "string"]
-    strings = corp_strings + gen_strings(rng, quick) + boundary_strings()
+    specials = special_strings()
+    strings = corp_strings + specials + gen_strings(rng, quick) + boundary_strings()
     wellformed = [s for s in strings if is_scalar_str(s)]
     assert len(wellformed) == len(strings)
     allstr = strings + WEIRD
 
     # =============== 0. hypotheses on Python's codecs, exercised ===============
+    asym = repertoire_sweep(ctx, quick)
     codec_law(ctx, drv, rng, quick)
     spec_vs_python(ctx, drv, rng, quick, wellformed)
 
@@ -483,9 +524,8 @@ def run(ctx: core.Run):
                 ctx.disagree("read_pascal_string: model(Lean codec) != code", {"data": hx(d), "pos": pos, "enc": enc, "pad": p, "impl": _r(r), "model": _r(ml)})
         if kind == "framed":
             if r[0] != "ok" or r[1] != s:
-                lossy = enc == "shift_jis" and r[0] == "ok" and len(r[1]) == len(s) and \
-                    all(a == b or a in LOSSY_SJIS for a, b in zip(s, r[1]))
-                ctx.fail(SIG_SJIS if lossy else f"C19/read_pascal_string/{enc}/roundtrip-differs",
+                lossy = r[0] == "ok" and asym_explains(asym, enc, s, r[1])
+                ctx.fail(sig_codec_asym(enc, asym) if lossy else f"C19/read_pascal_string/{enc}/roundtrip-differs",
                          "read_pascal_string(write_pascal_string(s)) != s for an encodable string",
                          {"op": "rps", "data": hx(d), "pos": pos, "enc": enc, "pad": p, "s": cps(s)}, _r(r), cps(s))
             elif r[2] != end:
@@ -497,10 +537,12 @@ def run(ctx: core.Run):
     if not have_pld:
         ctx.skipped.append("PlacedLayerData.uuid: no instance could be taken from placedLayer.psd")
     short = [s for s in wellformed if len(s) <= 12]
-    pool_u = corp_strings + rng.sample(short, min(len(short), 10 if quick else 40)) + \
+    pool_u = corp_strings + specials + rng.sample(short, min(len(short), 10 if quick else 40)) + \
         rng.sample(wellformed, 6 if quick else 40) + ["\U0001F47D" * 255, "\x00" * 255, "e\u0301" * 100]
-    pool_p = corp_strings + rng.sample(short, min(len(short), 10 if quick else 40)) + boundary_strings()[:8] + \
+    pool_p = corp_strings + specials + rng.sample(short, min(len(short), 10 if quick else 40)) + boundary_strings()[:8] + \
         ["\u00e9", "\u0416", "\u3042", "?", "\x00a\x00", "\u00e9" * 255, "\u00e9" * 128]
+    pool_u = list(dict.fromkeys(pool_u))
+    pool_p = list(dict.fromkeys(pool_p))
     for label, kind, make, get, wk, rk in places:
         pool = pool_u if kind == "unicode" else pool_p
         for s in pool:
@@ -540,11 +582,17 @@ def run(ctx: core.Run):
                          {"op": "place", "label": label, "s": cps(s)}, ecls(e), "value")
                 continue
             if got != want:
-                lossy = kind != "unicode" and kind[1] == "shift_jis" and any(ch in LOSSY_SJIS for ch in s)
-                sig = SIG_SJIS if lossy else (classify_unicode_failure(s, "differs") if kind == "unicode" else None) or f"C19/place/{label}/roundtrip-differs"
+                lossy = False
+                if kind != "unicode" and asym_explains(asym, kind[1], s, None):
+                    try:
+                        lossy = got == get(make(py_roundtrip(s, kind[1])))
+                    except Exception:  # noqa
+                        lossy = False
+                sig = sig_codec_asym(kind[1], asym) if lossy else (classify_unicode_failure(s, "differs") if kind == "unicode" else None) or f"C19/place/{label}/roundtrip-differs"
                 ctx.fail(sig, f"{label}: frombytes(tobytes(x)) != x", {"op": "place", "label": label, "s": cps(s)}, repr(got)[:120], repr(want)[:120])
 
     # =============== 4. the layer name: setter -> save -> open, bytes vs model ===============
+    name_matrix(ctx, drv, quick)
     name_path(ctx, drv, rng, quick, corp_strings, wellformed)
 
     ctx.rule = (
@@ -554,14 +602,23 @@ def run(ctx: core.Run):
         "x padding {1,2,4} (short strings also 3, 8, 0) x pascal codec {macroman, maccyrillic, utf_8, shift_jis, ascii}; readers on the "
         "written bytes embedded in random context (same and different padding), every truncation of short encodings, random unit / byte soup "
         "with wrong counts; %d storage places x string pool (Python == oracle); name path on API-created and fixture documents x 5 codecs. "
+        "Seed-independent sweeps in front of the seeded streams: (a) %d strings that put each of %d characters a normaliser / sanitiser / "
+        "terminator-stripper would touch (U+FEFF, U+FFFE, NUL, U+200B-U+200F, U+2028/9, astral, a combining mark, spaces, CR/LF, U+00A0, "
+        "precomposed vs decomposed, compatibility forms, the shift_jis / cp932 look-alikes ...) alone, at the start, in the middle, at the end "
+        "and doubled - through the primitives, every storage place (engine-data String included) and as layer names; (b) for each of "
+        "%d legacy encodings the codec's WHOLE repertoire (every Unicode scalar value it encodes, found by trying all 1 112 064) through "
+        "write_pascal_string / read_pascal_string, a layer record's legacy name and an image resource name; (c) every text-bearing API "
+        "entry point (name setter on three kinds of layer, Group.new, Group.group_layers, PixelLayer.frompil into 8- and 16-bit documents "
+        "and into a group) x %d classes of name x every one of those encodings as save/open `encoding`. "
         "A case is non-trivial when the string is non-empty (writers) / the stream is longer than its count field (readers); distinct = distinct "
-        "(op, string or bytes, codec, padding) tuples." % len(places)
+        "(op, string or bytes, codec, padding) tuples." % (len(places), len(specials), len(SPECIAL_CHARS), len(WIDE_ENCODINGS), len(NAME_CLASSES))
     )
     ctx.model_coverage = {
         "modelled_byte_level": ["write_unicode_string", "read_unicode_string", "write_pascal_string", "read_pascal_string",
                                 "write_padding", "read_padding", "Layer.name setter/getter", "LayerRecord._legacy_name",
+                                "Group.new / Group.group_layers name (newGroupName)", "PixelLayer.frompil name (frompilName)",
                                 "codecs ascii, mac_roman, mac_cyrillic, utf_8 (Lean, lawful by theorem)"],
-        "table_codec": ["shift_jis (encode/decode results passed to the model per case)"],
+        "table_codec": ["shift_jis, cp932, latin_1, gbk, euc_kr, cp1252, big5 (encode/decode results passed to the model per case)"],
         "python_oracle_only": [p[0] for p in places],
         "call_sites_in_source": gen["sites"],
     }
@@ -576,35 +633,157 @@ def run(ctx: core.Run):
         "the name setter tests MacRoman whatever the document encoding is: a name such as U+3042 gets '?' in the legacy field even when the "
         "file is saved as shift_jis; the unicode block keeps the name, so the property holds",
     ]
+    ctx.notes += [
+        "ties added after the round-3 seeds: nameEntryPoints (every API function that stores a caller-supplied layer name also stores the "
+        "unicode block unconditionally - name_entry_points_tied; the theorems name_keeps_unicode_any_record / group_new_keeps_unicode / "
+        "frompil_keeps_unicode quantify over the save encoding), primitiveCodecs (the pascal reader decodes with the parameter the writer "
+        "encodes with, never rebound - primitive_codecs_tied), codecPairs (reader codec = writer codec, call site by call site - "
+        "reader_codec_is_writer_codec), readerUses (no call site post-processes the string it read - reader_values_unprocessed)",
+    ]
     if ctx.tier == "thorough":
         ctx.recheck(["PsdVerif.Props.C19"])
 
 
-def codec_law(ctx, drv, rng, quick):
-    """decode(encode(s)) == s for Python's codecs (per code point, exhaustive), Lean codecs == Python codecs."""
-    hi = 0x110000
-    for enc in ENCODINGS:
-        bad = []
-        for c in range(hi):
+def sig_codec_asym(enc, asym):
+    """Signature of 'Python's own codec does not decode what it encoded': specific to the codec and to the exact set of
+    characters on which that codec is not injective (computed over the codec's whole repertoire in this run)."""
+    a = asym.get(enc) or set()
+    if enc == "shift_jis" and a == {0xA5, 0x203E}:
+        return SIG_SJIS
+    return f"C19/pascal/{enc}/python-codec-does-not-decode-what-it-encoded/" + "-".join(f"U+{c:04X}" for c in sorted(a))
+
+
+def py_roundtrip(s, enc):
+    b = try_encode(s, enc)
+    return None if b is None else try_decode(b, enc)
+
+
+def asym_explains(asym, enc, s, got):
+    """True when `got` (what the library read back for `s`) is exactly what Python's codec makes of its own encoding of
+    `s`, and it differs from `s` only at characters on which that codec is not injective."""
+    a = asym.get(enc) or set()
+    s2 = py_roundtrip(s, enc)
+    if not a or s2 is None or s2 == s or len(s2) != len(s):
+        return False
+    if any(x != y and ord(x) not in a for x, y in zip(s, s2)):
+        return False
+    return got is None or got == s2
+
+
+def codec_repertoire(enc):
+    """[(code point, encoded length)] for every Unicode scalar value the Python codec `enc` encodes, and the set of those
+    it does not decode back (decode(encode(c)) != c)."""
+    rep, bad = [], set()
+    planes = [range(0, 0xD800), range(0xE000, 0x10000)]
+    astral = "".join(map(chr, range(0x10000, 0x110000)))
+    if astral.encode(enc, "ignore"):
+        planes.append(range(0x10000, 0x110000))
+    for r in planes:
+        for c in r:
             ch = chr(c)
-            b = try_encode(ch, enc)
-            if b is None:
+            b = ch.encode(enc, "ignore")
+            if not b:
                 continue
+            rep.append((c, len(b)))
             if try_decode(b, enc) != ch:
-                bad.append(c)
-        ctx.count(("codec-law", enc), nontrivial=True, n=hi)
+                bad.add(c)
+    return rep, bad
+
+
+def repertoire_sweep(ctx, quick):
+    """For each supported legacy encoding: EVERY character the codec can encode goes through write_pascal_string /
+    read_pascal_string, through a whole layer record (legacy name field, no unicode block) and through an image resource
+    name, packed into strings of at most 255 encoded bytes; a string that does not come back is narrowed to its characters.
+    Oracle: the Unicode text itself (Python ==). A character on which Python's own codec is not injective is the
+    known, codec-specific finding; any other is a failing input. Returns {enc: set of non-injective code points}."""
+    from psd_tools import utils as U
+    from psd_tools.psd import image_resources as IR, layer_and_mask as LM
+    asym = {}
+
+    def via_pascal(s, enc, pad):
+        w = py_write(U.write_pascal_string, s, enc, pad)
+        if w[0] != "ok":
+            return w, None
+        return py_read(U.read_pascal_string, w[1], 0, enc, pad), w[1]
+
+    def via_record(s, enc, pad):
+        try:
+            b = LM.LayerRecord(name=s).tobytes(encoding=enc)
+            return ("ok", LM.LayerRecord.frombytes(b, encoding=enc).name, None), b
+        except Exception as e:  # noqa
+            return ("err", ecls(e)), None
+
+    def via_resource(s, enc, pad):
+        try:
+            b = IR.ImageResource(key=1999, name=s, data=b"xy").tobytes(encoding=enc)
+            return ("ok", IR.ImageResource.frombytes(b, encoding=enc).name, None), b
+        except Exception as e:  # noqa
+            return ("err", ecls(e)), None
+
+    paths = [("write_pascal_string/read_pascal_string", "rps", via_pascal), ("LayerRecord legacy name", "oldname", via_record),
+             ("ImageResource name", "resname", via_resource)]
+    for enc in WIDE_ENCODINGS:
+        rep, bad = codec_repertoire(enc)
+        asym[enc] = bad
+        ctx.count(("repertoire", enc), nontrivial=True, n=len(rep))
+        ctx.hist("codec_repertoire", enc, len(rep))
         ctx.hist("codec_law_violations", enc, len(bad))
-        if bad:
-            if enc == "shift_jis" and set(bad) <= {0xA5, 0x203E}:
-                r = py_write(__import__("psd_tools.utils", fromlist=["x"]).write_pascal_string, chr(bad[0]), enc, 2)
-                back = py_read(__import__("psd_tools.utils", fromlist=["x"]).read_pascal_string, r[1], 0, enc, 2) if r[0] == "ok" else r
-                if back[0] != "ok" or back[1] != chr(bad[0]):
-                    ctx.fail(SIG_SJIS, "a string the codec accepts is read back as a different string",
-                             {"op": "rps", "data": hx(r[1]) if r[0] == "ok" else "-", "pos": 0, "enc": enc, "pad": 2, "s": cps(chr(bad[0]))},
-                             _r(back), cps(chr(bad[0])))
+        chunks, cur, size = [], [], 0
+        for c, n in rep:
+            if size + n > 255 or len(cur) >= 96:
+                chunks.append("".join(cur))
+                cur, size = [], 0
+            cur.append(chr(c))
+            size += n
+        if cur:
+            chunks.append("".join(cur))
+        for pi, (pname, op, via) in enumerate(paths):
+            if pi > 0 and len(rep) > 70000:
+                # utf_8 and the like: the whole repertoire through the primitives, every 7th string through the element classes
+                todo = chunks[::7]
             else:
-                ctx.fail(f"C19/codec/{enc}/decode-encode-differs", f"Python codec {enc}: decode(encode(c)) != c",
-                         {"op": "codec", "enc": enc, "cps": [hex(c) for c in bad[:10]]}, len(bad), 0)
+                todo = chunks
+            culprits = {}          # known? -> [(char, input, observed)]
+            for k, s in enumerate(todo):
+                pad = PADS[k % 3]
+                r, data = via(s, enc, pad)
+                ctx.count(None, n=1)
+                if r[0] == "ok" and r[1] == s:
+                    continue
+                # narrow to the characters
+                found = 0
+                for ch in s:
+                    r1, d1 = via(ch, enc, pad)
+                    if r1[0] == "ok" and r1[1] == ch:
+                        continue
+                    found += 1
+                    # Python's own codec does not give the character back (another character, or bytes it refuses to decode)
+                    # and the library shows exactly that
+                    back = py_roundtrip(ch, enc)
+                    known = ord(ch) in bad and ((r1[0] == "ok" and r1[1] == back) or (r1[0] == "err" and r1[1] == "UnicodeError" and back is None))
+                    if op == "rps" and d1:
+                        inp = {"op": "rps", "data": hx(d1), "pos": 0, "enc": enc, "pad": pad, "s": cps(ch)}
+                    elif op == "rps":
+                        inp = {"op": "wps", "s": cps(ch), "enc": enc, "pad": pad}
+                    else:
+                        inp = {"op": op, "s": cps(ch), "enc": enc}
+                    culprits.setdefault(known, []).append((ch, inp, _r(r1)))
+                if found == 0:
+                    inp = {"op": op, "s": cps(s), "enc": enc, "pad": pad, "pos": 0, "data": hx(data) if data else "-"}
+                    ctx.fail(f"C19/repertoire/{enc}/{pname}/string-does-not-round-trip-though-its-characters-do",
+                             f"{pname} ({enc}): a string of encodable characters is not read back", inp, _r(r), cps(s))
+            for known, lst in culprits.items():
+                ch, inp, obs = lst[0]
+                allc = " ".join(f"U+{ord(c):04X}" for c, _, _ in lst[:40]) + (" ..." if len(lst) > 40 else "")
+                ctx.fail(sig_codec_asym(enc, asym) if known else f"C19/repertoire/{enc}/{pname}/encodable-character-does-not-round-trip",
+                         f"{pname} ({enc}): {len(lst)} character(s) the codec encodes are not read back: {allc}",
+                         dict(inp, all_failing=allc), obs, cps(ch))
+    ctx.extra["codec_not_injective_on"] = {e: [f"U+{c:04X}" for c in sorted(b)] for e, b in asym.items() if b}
+    return asym
+
+
+def codec_law(ctx, drv, rng, quick):
+    """Lean codecs == Python codecs (the law decode(encode(c)) == c of Python's codecs is swept by repertoire_sweep)."""
     # Lean codecs against Python's
     reqs, exp = [], []
     pool = "".join(CLASSES.values()) + "\u00a5\u203e\u00a0\u2020\u0490\u20ac"
@@ -667,189 +846,203 @@ def spec_vs_python(ctx, drv, rng, quick, wellformed):
             ctx.disagree("Spec.utf16Dec != Python strict utf-16-be", {"units": u, "model": a, "python": list(exp)})
 
 
-def name_path(ctx, drv, rng, quick, corp_strings, wellformed):
+# ---- the layer name through the API ---------------------------------------------------------
+def _img():
     from PIL import Image
+    return Image.new("RGB", (4, 4), (9, 8, 7))
+
+
+def name_makers():
+    """label -> (mode, make(name) -> (psd, index of the named layer among descendants())).
+    mode 'set': the layer exists under another name and `layer.name = name` is applied by the caller;
+    'new' / 'frompil': the name is given to the creating call (Group.new / Group.group_layers, PixelLayer.frompil)."""
     from psd_tools import PSDImage
     from psd_tools.api.layers import Group, PixelLayer
-    from psd_tools.constants import Tag
-    from psd_tools.psd import layer_and_mask as LM
 
-    fixtures = ["group.psd", "clipping-mask.psd", "layer-name-emoji.psd", "unicode_pathname.psd", "hidden-groups.psd"]
-    pf = core.REPO / "tests" / "psd_files"
-    fixtures = [f for f in fixtures if (pf / f).exists()]
-    if not quick:
-        fixtures = sorted(str(p.relative_to(pf)) for p in list(pf.rglob("*.psd")) + list(pf.rglob("*.psb")))
+    def doc(depth=8):
+        return PSDImage.new("RGB", (8, 8), depth=depth) if depth != 8 else PSDImage.new("RGB", (8, 8))
 
-    def mk_group():
-        p = PSDImage.new("RGB", (8, 8))
-        g = Group.new("x", parent=p)
-        return p, 0
-
-    def mk_pixel():
-        p = PSDImage.new("RGB", (8, 8))
-        l = PixelLayer.frompil(Image.new("RGB", (4, 4), (9, 8, 7)), p, "x")
+    def pixel(p, name):
+        l = PixelLayer.frompil(_img(), p, name)
         if l not in list(p):
             p.append(l)
+        return l
+
+    def set_group(n):
+        p = doc()
+        Group.new("x", parent=p)
         return p, 0
 
-    def mk_nested():
-        p = PSDImage.new("RGB", (8, 8))
+    def set_pixel(n):
+        p = doc()
+        pixel(p, "x")
+        return p, 0
+
+    def set_nested(n):
+        p = doc()
         g = Group.new("g", parent=p)
-        l = PixelLayer.frompil(Image.new("RGB", (4, 4)), p, "x")
+        l = PixelLayer.frompil(_img(), p, "x")
         if l in list(p):
             p.remove(l)
         g.append(l)
         return p, 1
 
-    makers = [("api:group", mk_group), ("api:pixel", mk_pixel), ("api:pixel-in-group", mk_nested)]
+    def new_group(n):
+        p = doc()
+        Group.new(n, parent=p)
+        return p, 0
 
-    def fixture_maker(fn, pick):
-        def mk():
-            p = PSDImage.open(str(pf / fn))
-            ls = list(p.descendants())
-            return p, pick % len(ls)
-        return mk
+    def new_group_layers(n):
+        p = doc()
+        l = pixel(p, "x")
+        Group.group_layers([l], name=n)
+        return p, 0
 
-    short = [s for s in wellformed if len(s) <= 10]
-    names = corp_strings + ["", "a", "\u00e9", "\u00e9" * 200, "\u00e9" * 255, "\u3042", "\u0416\u00e9", "\U0001F47D", "\U0001F47D" * 255,
-                            "a\x00b", "\x00", "e\u0301", "a" * 255, "?", "\u00a5", "\uffff"] + rng.sample(short, 8 if quick else 40) + \
-        rng.sample(wellformed, 4 if quick else 40)
-    names = [n for n in names if len(n) < 256]
-    cases = []
-    for n in names:
-        for enc in ENCODINGS:
-            for label, mk in makers:
-                if quick and len(n) > 30 and label != "api:pixel":
-                    continue
-                cases.append((label, mk, n, enc))
-    for k, fn in enumerate(fixtures):
-        try:
-            p = PSDImage.open(str(pf / fn))
-            nl = len(list(p.descendants()))
-        except Exception as e:  # noqa
-            ctx.hist("fixture_not_used", "open:" + type(e).__name__)
-            continue
-        if nl == 0:
-            ctx.hist("fixture_not_used", "no-layers")
-            continue
-        ctx.hist("fixture_not_used", "used")
-        for j in range(2):
-            n = rng.choice(names)
-            enc = ENCODINGS[(k + j) % len(ENCODINGS)]
-            if enc != "macroman":
-                # the untouched document must be savable in this encoding (resource names and legacy-only layer
-                # names that the encoding cannot express are rejected - correctly - whatever the edited name is)
-                try:
-                    p.save(io.BytesIO(), encoding=enc)
-                    PSDImage.open(str(pf / fn), encoding=enc)
-                except Exception:
-                    enc = "macroman"
-            cases.append((f"fixture:{fn}", fixture_maker(fn, rng.randrange(1000)), n, enc))
+    def frompil(n):
+        p = doc()
+        pixel(p, n)
+        return p, 0
 
-    reqs, info = [], []
-    for label, mk, n, enc in cases:
-        ctx.count(("name", label, n, enc), nontrivial=len(n) > 0)
-        ctx.hist("name_doc", label.split(":")[0])
-        ctx.hist("name_enc", enc)
-        inp = {"op": "name", "doc": label, "s": cps(n), "enc": enc}
-        try:
-            psd, idx = mk()
-            layer = list(psd.descendants())[idx]
-            kind = layer.kind
-        except Exception as e:  # noqa
+    def frompil16(n):
+        p = doc(16)
+        pixel(p, n)
+        return p, 0
+
+    def frompil_in_new_group(n):
+        p = doc()
+        g = Group.new("g", parent=p)
+        l = PixelLayer.frompil(_img(), p, n)
+        if l in list(p):
+            p.remove(l)
+        g.append(l)
+        return p, 1
+
+    return {
+        "api:group": ("set", set_group), "api:pixel": ("set", set_pixel), "api:pixel-in-group": ("set", set_nested),
+        "api:Group.new": ("new", new_group), "api:Group.group_layers": ("new", new_group_layers),
+        "api:PixelLayer.frompil": ("frompil", frompil), "api:PixelLayer.frompil(16-bit document)": ("frompil", frompil16),
+        "api:PixelLayer.frompil-into-group": ("frompil", frompil_in_new_group),
+    }
+
+
+def name_case(ctx, label, mode, mk, n, enc, reqs, info):
+    """One name through the API: create / rename, observe at once, save(encoding=enc), open(encoding=enc), compare with the
+    Unicode text given (the property, model-independent); then queue the byte-level comparison with the model."""
+    import io as _io
+    from psd_tools import PSDImage
+    from psd_tools.constants import Tag
+    from psd_tools.psd import layer_and_mask as LM
+
+    ctx.count(("name", label, n, enc), nontrivial=len(n) > 0)
+    ctx.hist("name_doc", label.split(":")[0] if label.startswith("fixture") else label)
+    ctx.hist("name_enc", enc)
+    inp = {"op": "name", "doc": label, "s": cps(n), "enc": enc}
+    try:
+        psd, idx = mk(n)
+        layer = list(psd.descendants())[idx]
+        kind = layer.kind
+    except Exception as e:  # noqa
+        if mode == "set":
             ctx.hist("name_doc_not_prepared", type(e).__name__)
-            continue
-        ctx.hist("name_layer_kind", kind)
+        else:
+            ctx.fail(f"C19/name/{label}/creation-raises/{ecls(e)}", f"{label}: creating a layer with a well-formed name shorter than 256 raises",
+                     inp, ecls(e), "layer")
+        return
+    ctx.hist("name_layer_kind", kind)
+    if mode == "set":
         try:
             layer.name = n
         except Exception as e:  # noqa
             ctx.fail(f"C19/name/setter-raises/{ecls(e)}", "layer.name = s raises for a well-formed name shorter than 256",
                      inp, ecls(e), "stored")
-            continue
-        if layer.name != n:
-            ctx.fail("C19/name/not-observable-at-once", "layer.name != s right after the assignment", inp, cps(layer.name), cps(n))
-        rec = layer._record
-        mem_legacy = rec.name
-        blk = rec.tagged_blocks.get(Tag.UNICODE_LAYER_NAME)
-        ub = None
-        if blk is not None:
-            try:
-                tb = blk.tobytes(padding=1)
-                ub = tb[12:12 + struct.unpack(">I", tb[8:12])[0]]
-            except Exception as e:  # noqa
-                ub = ("err", ecls(e))
-        # the Pascal field as the real save emits it for this record, and the encoding that reaches it
-        # (layer records inside Lr16/Lr32 blocks are written and read with the default MacRoman whatever
-        # `encoding` is passed to save/open: TaggedBlock.write does not forward it)
-        state = {"on": False, "enc": None, "lb": None}
-        orig = LM.write_pascal_string
-        orig_we = LM.LayerRecord._write_extra
-
-        def spy(fp, value, encoding="macroman", padding=2):
-            start = fp.tell()
-            w = orig(fp, value, encoding, padding)
-            if state["on"] and state["lb"] is None:
-                cur = fp.tell()
-                fp.seek(start)
-                state["lb"] = fp.read(w)
-                fp.seek(cur)
-            return w
-
-        def we(self, fp, encoding, version):
-            if self is rec:
-                state["on"], state["enc"] = True, encoding
-            try:
-                return orig_we(self, fp, encoding, version)
-            finally:
-                state["on"] = False
-
-        out = io.BytesIO()
-        LM.write_pascal_string = spy
-        LM.LayerRecord._write_extra = we
-        rec_err = None
+            return
+    if layer.name != n:
+        ctx.fail("C19/name/not-observable-at-once", "layer.name != s right after the assignment / creation", inp, cps(layer.name), cps(n))
+    rec = layer._record
+    mem_legacy = rec.name
+    blk = rec.tagged_blocks.get(Tag.UNICODE_LAYER_NAME) if rec.tagged_blocks is not None else None
+    ub = None
+    if blk is not None:
         try:
-            try:
-                psd.save(out, encoding=enc)
-            except Exception as e:  # noqa
-                rec_err = ecls(e)
+            tb = blk.tobytes(padding=1)
+            ub = tb[12:12 + struct.unpack(">I", tb[8:12])[0]]
+        except Exception as e:  # noqa
+            ub = ("err", ecls(e))
+    # the Pascal field as the real save emits it for this record, and the encoding that reaches it
+    # (layer records inside Lr16/Lr32 blocks are written and read with the default MacRoman whatever
+    # `encoding` is passed to save/open: TaggedBlock.write does not forward it)
+    state = {"on": False, "enc": None, "lb": None}
+    orig = LM.write_pascal_string
+    orig_we = LM.LayerRecord._write_extra
+
+    def spy(fp, value, encoding="macroman", padding=2):
+        start = fp.tell()
+        w = orig(fp, value, encoding, padding)
+        if state["on"] and state["lb"] is None:
+            cur = fp.tell()
+            fp.seek(start)
+            state["lb"] = fp.read(w)
+            fp.seek(cur)
+        return w
+
+    def we(self, fp, encoding, version):
+        if self is rec:
+            state["on"], state["enc"] = True, encoding
+        try:
+            return orig_we(self, fp, encoding, version)
         finally:
-            LM.write_pascal_string = orig
-            LM.LayerRecord._write_extra = orig_we
-        lb = state["lb"]
-        enc_eff = state["enc"] or enc
-        if enc_eff != enc:
-            ctx.hist("name_effective_encoding_differs", f"{enc}->{enc_eff}")
-        if rec_err is not None:
-            res = ("err", rec_err)
+            state["on"] = False
+
+    out = _io.BytesIO()
+    LM.write_pascal_string = spy
+    LM.LayerRecord._write_extra = we
+    rec_err = None
+    try:
+        try:
+            psd.save(out, encoding=enc)
+        except Exception as e:  # noqa
+            rec_err = ecls(e)
+    finally:
+        LM.write_pascal_string = orig
+        LM.LayerRecord._write_extra = orig_we
+    lb = state["lb"]
+    enc_eff = state["enc"] or enc
+    if enc_eff != enc:
+        ctx.hist("name_effective_encoding_differs", f"{enc}->{enc_eff}")
+    if rec_err is not None:
+        res = ("err", rec_err)
+    else:
+        try:
+            q = PSDImage.open(_io.BytesIO(out.getvalue()), encoding=enc)
+            l2 = list(q.descendants())[idx]
+            res = ("ok", l2.name, l2._record.name, l2.kind)
+        except Exception as e:  # noqa
+            res = ("err", ecls(e))
+    # --- property on the real code
+    if res[0] == "err":
+        e0 = try_encode(mem_legacy, enc_eff)
+        if res[1] == "UnicodeError" and e0 is None:
+            sig = SIG_NAME_UNENC
+        elif res[1] == "struct.error" and e0 is not None and len(e0) > 255:
+            sig = SIG_NAME_LONG
         else:
-            try:
-                q = PSDImage.open(io.BytesIO(out.getvalue()), encoding=enc)
-                l2 = list(q.descendants())[idx]
-                res = ("ok", l2.name, l2._record.name, l2.kind)
-            except Exception as e:  # noqa
-                res = ("err", ecls(e))
-        # --- property on the real code
-        if res[0] == "err":
-            e0 = try_encode(mem_legacy, enc_eff)
-            if res[1] == "UnicodeError" and e0 is None:
-                sig = SIG_NAME_UNENC
-            elif res[1] == "struct.error" and e0 is not None and len(e0) > 255:
-                sig = SIG_NAME_LONG
-            else:
-                sig = classify_unicode_failure(n, res[1]) or f"C19/name/save-open-raises/{res[1]}"
-            ctx.fail(sig, "layer.name = s; save; open fails", inp, res[1], cps(n))
-        elif res[1] != n:
-            sig = classify_unicode_failure(n, "differs") or "C19/name/lost-after-save-open"
-            ctx.fail(sig, "layer.name = s; save; open; name != s", inp, cps(res[1]), cps(n))
-        elif res[3] != kind:
-            ctx.fail("C19/name/layer-kind-changed", "the renamed layer changed kind after save/open", inp, res[3], kind)
-        # --- byte-level correspondence with the model
-        tab = ";".join(sorted({table_entry(n, enc_eff), table_entry("?", enc_eff), table_entry(mem_legacy, enc_eff)}))
-        reqs.append(("uni.name", "table", "set", cps(n), "-", tab))
+            sig = classify_unicode_failure(n, res[1]) or f"C19/name/save-open-raises/{res[1]}"
+        ctx.fail(sig, f"{label}: name = s; save(encoding); open(encoding) fails", inp, res[1], cps(n))
+    elif res[1] != n:
+        sig = classify_unicode_failure(n, "differs") or "C19/name/lost-after-save-open"
+        ctx.fail(sig, f"{label}: name = s; save; open; name != s", inp, cps(res[1]), cps(n))
+    elif res[3] != kind:
+        ctx.fail("C19/name/layer-kind-changed", "the named layer changed kind after save/open", inp, res[3], kind)
+    # --- byte-level correspondence with the model
+    tab = ";".join(sorted({table_entry(n, enc_eff), table_entry("?", enc_eff), table_entry(mem_legacy, enc_eff)}))
+    reqs.append(("uni.name", "table", mode, cps(n), "-", tab))
+    info.append((inp, mem_legacy, lb, ub, rec_err, res, enc_eff))
+    if enc_eff in LEAN_CODEC:
+        reqs.append(("uni.name", LEAN_CODEC[enc_eff], mode, cps(n), "-"))
         info.append((inp, mem_legacy, lb, ub, rec_err, res, enc_eff))
-        if enc_eff in LEAN_CODEC:
-            reqs.append(("uni.name", LEAN_CODEC[enc_eff], "set", cps(n), "-"))
-            info.append((inp, mem_legacy, lb, ub, rec_err, res, enc_eff))
+
+
+def name_model_compare(ctx, drv, reqs, info):
     ans = drv.batch(reqs)
     for rq, a, (inp, mem_legacy, lb, ub, rec_err, res, enc) in zip(reqs, ans, info):
         ctx.corr_cases += 1
@@ -877,6 +1070,101 @@ def name_path(ctx, drv, rng, quick, corp_strings, wellformed):
             impl = f"write:{rec_err}" if rec_err else "ok"
             if stage != impl:
                 ctx.disagree("name path: model != code (error)", {"input": inp, "codec": rq[1], "impl": impl, "model": stage})
+
+
+NAME_CLASSES = {
+    "empty": "", "ascii": "Layer 1", "macroman-latin": "Caf\u00e9 \u00a9 2024", "macroman-greek-math": "\u03a9 \u221a \u2260",
+    "latin-1-beyond-macroman": "\u00d0\u00fd\u00de \u00bd\u00d7", "latin-beyond-latin-1": "\u0141\u00f3d\u017a \u0151\u0171",
+    "cyrillic": "\u041f\u0440\u0438\u0432\u0435\u0442", "cjk-japanese": "\u65e5\u672c\u8a9e\u30ec\u30a4\u30e4\u30fc",
+    "cjk-chinese": "\u56fe\u5c42 \u4e00", "hangul": "\ub808\uc774\uc5b4", "astral": "emoji \U0001F47D\U0001F600",
+    "combining": "e\u0301 a\u0308\u20dd", "mixed": "A\u00e9\u0416\u3042\U0001F47D", "yen-overline": "\u00a5100 \u203e",
+    "wave-dash": "\u301c\u2016\u2212\u00a2\u00a3\u00ac", "question": "?", "long-latin": "\u00e9" * 200, "long-cjk": "\u3042" * 128,
+    "255": "n" * 254 + "\u00e9",
+}
+
+
+def name_matrix(ctx, drv, quick):
+    """Seed-independent: every text-bearing API entry point x every class of name x every save/open encoding of
+    WIDE_ENCODINGS; and the normaliser-bait characters at the start / middle / end of a name on the three kinds of entry
+    point. Saving must succeed and the reopened name must be the Unicode text given, whatever the legacy field can hold."""
+    makers = name_makers()
+    reqs, info = [], []
+    for label, (mode, mk) in makers.items():
+        for cname, n in NAME_CLASSES.items():
+            for enc in WIDE_ENCODINGS:
+                if quick and len(n) > 100 and enc in ("cp1252", "big5", "gbk") and mode == "set":
+                    continue
+                ctx.hist("name_matrix", f"{mode}:{cname}")
+                name_case(ctx, label, mode, mk, n, enc, reqs, info)
+    sp = special_strings(("start", "middle", "end"))
+    for label in ("api:pixel", "api:Group.new", "api:PixelLayer.frompil"):
+        mode, mk = makers[label]
+        for n in sp:
+            for enc in ("macroman", "utf_8", "shift_jis"):
+                ctx.hist("name_matrix", f"{mode}:special-characters")
+                name_case(ctx, label, mode, mk, n, enc, reqs, info)
+    name_model_compare(ctx, drv, reqs, info)
+
+
+def name_path(ctx, drv, rng, quick, corp_strings, wellformed):
+    from psd_tools import PSDImage
+    from psd_tools.psd import layer_and_mask as LM
+
+    fixtures = ["group.psd", "clipping-mask.psd", "layer-name-emoji.psd", "unicode_pathname.psd", "hidden-groups.psd"]
+    pf = core.REPO / "tests" / "psd_files"
+    fixtures = [f for f in fixtures if (pf / f).exists()]
+    if not quick:
+        fixtures = sorted(str(p.relative_to(pf)) for p in list(pf.rglob("*.psd")) + list(pf.rglob("*.psb")))
+
+    makers = [(label, mode, mk) for label, (mode, mk) in name_makers().items()]
+
+    def fixture_maker(fn, pick):
+        def mk(n):
+            p = PSDImage.open(str(pf / fn))
+            ls = list(p.descendants())
+            return p, pick % len(ls)
+        return mk
+
+    short = [s for s in wellformed if len(s) <= 10]
+    names = corp_strings + ["", "a", "\u00e9", "\u00e9" * 200, "\u00e9" * 255, "\u3042", "\u0416\u00e9", "\U0001F47D", "\U0001F47D" * 255,
+                            "a\x00b", "\x00", "e\u0301", "a" * 255, "?", "\u00a5", "\uffff"] + rng.sample(short, 8 if quick else 40) + \
+        rng.sample(wellformed, 4 if quick else 40)
+    names = [n for n in names if len(n) < 256]
+    cases = []
+    for n in names:
+        for enc in ENCODINGS:
+            for label, mode, mk in makers:
+                if quick and (mode != "set" or (len(n) > 30 and label != "api:pixel")):
+                    continue        # the creating entry points are crossed with every encoding in name_matrix
+                cases.append((label, mode, mk, n, enc))
+    for k, fn in enumerate(fixtures):
+        try:
+            p = PSDImage.open(str(pf / fn))
+            nl = len(list(p.descendants()))
+        except Exception as e:  # noqa
+            ctx.hist("fixture_not_used", "open:" + type(e).__name__)
+            continue
+        if nl == 0:
+            ctx.hist("fixture_not_used", "no-layers")
+            continue
+        ctx.hist("fixture_not_used", "used")
+        for j in range(2):
+            n = rng.choice(names)
+            enc = WIDE_ENCODINGS[(k + j) % len(WIDE_ENCODINGS)]
+            if enc != "macroman":
+                # the untouched document must be savable in this encoding (resource names and legacy-only layer
+                # names that the encoding cannot express are rejected - correctly - whatever the edited name is)
+                try:
+                    p.save(io.BytesIO(), encoding=enc)
+                    PSDImage.open(str(pf / fn), encoding=enc)
+                except Exception:
+                    enc = "macroman"
+            cases.append((f"fixture:{fn}", "set", fixture_maker(fn, rng.randrange(1000)), n, enc))
+
+    reqs, info = [], []
+    for label, mode, mk, n, enc in cases:
+        name_case(ctx, label, mode, mk, n, enc, reqs, info)
+    name_model_compare(ctx, drv, reqs, info)
     lr16_probe(ctx)
     # old files: no unicode block, legacy name written as is (no substitution)
     olds = ["a", "\u00e9", "\u3042", "\u00e9" * 200, ""]
@@ -981,24 +1269,32 @@ def replay(ctx, data):
                 except Exception as e:  # noqa
                     print(label, "-> raises", type(e).__name__, e)
     elif op == "name":
-        from PIL import Image
         from psd_tools import PSDImage
-        from psd_tools.api.layers import Group, PixelLayer
         doc = inp["doc"]
+        n = from_cps(inp["s"])
         try:
             if doc.startswith("fixture:"):
                 p = PSDImage.open(str(core.REPO / "tests" / "psd_files" / doc.split(":", 1)[1]))
                 layer = list(p.descendants())[0]
+                layer.name = n
             else:
-                p = PSDImage.new("RGB", (8, 8))
-                layer = Group.new("x", parent=p) if doc == "api:group" else PixelLayer.frompil(Image.new("RGB", (4, 4)), p, "x")
-                if layer not in list(p.descendants()):
-                    p.append(layer)
-            layer.name = from_cps(inp["s"])
+                mode, mk = name_makers()[doc]
+                p, idx = mk(n)
+                layer = list(p.descendants())[idx]
+                if mode == "set":
+                    layer.name = n
+            print("name right after creation / assignment ->", cps(layer.name))
             out = _io.BytesIO()
             p.save(out, encoding=inp["enc"])
             q = PSDImage.open(_io.BytesIO(out.getvalue()), encoding=inp["enc"])
             print("names after save/open ->", [cps(l.name) for l in q.descendants()][:5])
+        except Exception as e:  # noqa
+            print("raises", type(e).__name__, e)
+    elif op == "resname":
+        from psd_tools.psd import image_resources as IR
+        try:
+            b = IR.ImageResource(key=1999, name=from_cps(inp["s"]), data=b"xy").tobytes(encoding=inp["enc"])
+            print("->", cps(IR.ImageResource.frombytes(b, encoding=inp["enc"]).name))
         except Exception as e:  # noqa
             print("raises", type(e).__name__, e)
     elif op == "legacyonly":
